@@ -27,10 +27,17 @@ RECURSIVE Fill(_, _, _)
 Fill(s, i, n) == IF i > Len(s) THEN <<>>
                  ELSE (IF s[i] = Hole THEN Digits(n) ELSE <<s[i]>>) \o Fill(s, i + 1, n)
 
-RECURSIVE Up(_, _, _)      \* prefix(from) .. prefix(to)
-Up(s, from, to) == IF from > to THEN <<>> ELSE Fill(s, 1, from) \o Up(s, from + 1, to)
-RECURSIVE Down(_, _)       \* suffix(k) .. suffix(1)
-Down(s, k) == IF k < 1 THEN <<>> ELSE Fill(s, 1, k) \o Down(s, k - 1)
+\* prefix(from) .. prefix(to), built by halving (a linear chain of concatenations is quadratic in TLC)
+RECURSIVE Up(_, _, _)
+Up(s, from, to) == IF from > to THEN <<>>
+                   ELSE IF from = to THEN Fill(s, 1, from)
+                   ELSE LET mid == (from + to) \div 2 IN Up(s, from, mid) \o Up(s, mid + 1, to)
+\* suffix(hi) .. suffix(lo)
+RECURSIVE DownR(_, _, _)
+DownR(s, hi, lo) == IF hi < lo THEN <<>>
+                    ELSE IF hi = lo THEN Fill(s, 1, hi)
+                    ELSE LET mid == (hi + lo) \div 2 IN DownR(s, hi, mid + 1) \o DownR(s, mid, lo)
+Down(s, k) == DownR(s, k, 1)
 
 Doc == Up(Units[p[1]][1], 1, p[3]) \o Cores[p[2]] \o Down(Units[p[1]][2], p[3])
 EmitAll == p # <<>> => Emit(ToString(p), Doc)
